@@ -124,7 +124,7 @@ def execute(sc):
     a = float(ivpsolve.dt0(vf, (tree0,), t=t0))
     b_ = float(ivpsolve.dt0_adaptive(vf, (tree0,), t0, error_contraction_rate=sc["rate"], rtol=sc["rtol"], atol=sc["atol"]))
     stats["dt0"], stats["dt0_adaptive"] = a, b_
-    overflow = sc["regime"] == "huge_u0" and max(abs(x) for x in sc["u0"]) >= 1e100
+    overflow = sc["regime"] == "huge_u0" and max(abs(x) for x in sc["u0"]) >= 1e50
     for name, v in (("dt0", a), ("dt0_adaptive", b_)):
         if not (math.isfinite(v) and v > 0.0):
             vv = {"inv": "DT0-positive", "msg": f"{name} returned {v!r} for u0={sc['u0']} ({sc['regime']})"}
